@@ -36,7 +36,7 @@ def replay_spec(ctx, witness):
 def judge_accept(acc, sch, w, n, e, sel, data, r, witness):
     """decode returned true: exactness monitors."""
     nbytes = len(data)
-    enc = {1: r.get('L'), 2: r.get('B')}[sel]
+    enc = {0: r.get('N'), 1: r.get('L'), 2: r.get('B')}[sel]
     if r.get('size') != nbytes or enc is None or len(enc) != nbytes:
         acc.violation(PROP, 'accepted-input-reencodes-to-different-length',
                       witness(get_byte_size=r.get('size'), reencoded_len=None if enc is None else len(enc)))
@@ -104,7 +104,7 @@ def run_shard(spec):
             vals = [x for x in vals if x[0] in ('max', 'odd', 'rand')][:2]
             prev = None
             for mode, v in vals:
-                e, sel = rng.choice((('<', 1), ('>', 2)))
+                e, sel = rng.choice((('<', 1), ('>', 2), ('<', 0)))   # 0: the native selector (host is little-endian)
                 data, spans = w.encode(n, v, e)
                 add(ti, n, sel, e, 0, 'canonical', '', data, v)
                 add(ti, n, sel, e, 4, 'canonical+reused-object', '', data, v)
